@@ -137,7 +137,7 @@ impl Shape {
     }
 }
 
-pub trait MomT: Clone + Send + Sync + 'static {
+pub trait MomT: Clone + Send + 'static {
     const NAME: &'static str;
     /// highest central moment the type reports
     const ORDER: usize;
